@@ -12,6 +12,12 @@ Ops (plain lists):
   ["note", start, end, staff, id]
   ["rm",   i]                          remove the object created by the i-th op (global index)
   ["setq", t, q]                       Part.set_quarter_duration
+  ["set",  i, attr, value]             assign an attribute of the object created by the i-th op IN PLACE (no Part.add /
+                                       Part.remove): ts beats | beat_type | musical_beats, ks fifths | mode,
+                                       clef staff | sign | line | octave_change, meas number
+  ["umb",  {"6/8": 3, ...}]            Part.use_musical_beat(dict)   (changes the time signatures in place)
+  ["unb"]                              Part.use_notated_beat()
+  ["smb",  {...}]                      Part.set_musical_beat_per_ts(dict)
 
 The reference is written from the statement of C10 only (plain Python, Fractions); it never
 looks at a partitura object.
@@ -22,6 +28,12 @@ from fractions import Fraction as F
 MUSICAL_BEATS = {6: 2, 9: 3, 12: 4}  # documented in TimeSignature's docstring
 MODE_INT = {"major": 1, "minor": -1, None: 1, "none": 1}  # docstring of key_mode_to_int
 CLEF_SIGNS = ["G", "F", "C", "percussion", "TAB", "jianpu", "none"]
+SET_FIELDS = {"ts": {"beats": 2, "beat_type": 3}, "ks": {"fifths": 2, "mode": 3},
+              "clef": {"staff": 2, "sign": 3, "line": 4, "octave_change": 5}, "meas": {"number": 3}}
+
+
+def default_musical_beats(beats):
+    return MUSICAL_BEATS.get(beats, beats)
 
 
 # ---------------------------------------------------------------------------------------------
@@ -35,16 +47,84 @@ class State(object):
         self.q = {0: q}
         self.live = {}  # global op index -> op
         self.n = 0
+        # number of musical beats of every live time signature (an attribute of the element: the
+        # documented default at creation, changed by the musical-beat methods of the part or by hand)
+        self.mus = {}
+        self.mus_given = set()  # time signatures whose musical beats were stated after the last change of `beats`
+        self.musical_mode = False  # Part.use_musical_beat is in effect
+        self.last_dict = {}
+        self.inplace = 0  # number of in-place operations applied so far
+        self.open = None  # reason why the statement/documentation leaves the current values open (generator filter)
 
     def apply(self, op):
         k = op[0]
         if k == "rm":
             del self.live[op[1]]
+            self.mus.pop(op[1], None)
+            self.mus_given.discard(op[1])
         elif k == "setq":
             self.q[op[1]] = op[2]
+        elif k == "set":
+            self._set(op[1], op[2], op[3])
+            self.inplace += 1
+        elif k == "smb":
+            self._per_ts(op[1])
+            self.inplace += 1
+        elif k == "umb":
+            # documented: switch to musical beats; the dict sets the musical beats of the named
+            # signatures, "otherwise the default values are used"
+            if self.musical_mode:
+                self.open = "use_musical_beat while musical beats are already in use (documented only as a warning)"
+            self.musical_mode = True
+            if op[1]:
+                self._per_ts(op[1])
+            elif any(self.mus[i] != default_musical_beats(self.live[i][2]) for i in self.mus):
+                self.open = "use_musical_beat() without dict on hand-set musical beats (kept or reset to the defaults?)"
+            self.inplace += 1
+        elif k == "unb":
+            # documented: back to notated beats and "reset the number of musical beats ... to default values"
+            if not self.musical_mode:
+                self.open = "use_notated_beat while notated beats are already in use (documented only as a warning)"
+            self.musical_mode = False
+            self._per_ts({})
+            self.inplace += 1
         else:
             self.live[self.n] = op
+            if k == "ts":
+                self.mus[self.n] = default_musical_beats(op[2])
+                key = "%d/%d" % (op[2], op[3])
+                if self.last_dict.get(key, self.mus[self.n]) != self.mus[self.n]:
+                    self.open = "time signature added after a musical-beat dict naming it (does the dict still apply?)"
         self.n += 1
+
+    def _per_ts(self, d):
+        """Part.set_musical_beat_per_ts as documented: the value of the dict for the signatures it
+        names ("beats/beat_type"), the default for all others."""
+        self.last_dict = dict(d)
+        for i, o in self.live.items():
+            if o[0] == "ts":
+                self.mus[i] = d.get("%d/%d" % (o[2], o[3]), default_musical_beats(o[2]))
+                self.mus_given.add(i)
+
+    def _set(self, i, attr, value):
+        o = list(self.live[i])
+        if o[0] == "ts" and attr == "musical_beats":
+            self.mus[i] = value
+            self.mus_given.add(i)
+            return
+        o[SET_FIELDS[o[0]][attr]] = value
+        self.live[i] = o
+        if o[0] == "ts" and attr == "beats":
+            # the element keeps the musical beats it had; the documentation gives the default for
+            # the new numerator: only unambiguous when both agree or the value is stated afterwards
+            self.mus_given.discard(i)
+
+    def ts_rows(self):
+        """[(start, beats, beat_type, musical_beats)] of the live time signatures."""
+        return [(o[1], o[2], o[3], self.mus[i]) for i, o in sorted(self.live.items()) if o[0] == "ts"]
+
+    def musical_beats_determined(self):
+        return all(self.mus[i] == default_musical_beats(self.live[i][2]) or i in self.mus_given for i in self.mus)
 
     def of(self, kind):
         return [o for _, o in sorted(self.live.items()) if o[0] == kind]
@@ -90,7 +170,7 @@ def in_force(elems, t, default):
 
 
 def ref_ts(st, t):
-    el = [(o[1], (o[2], o[3], MUSICAL_BEATS.get(o[2], o[2]))) for o in st.of("ts")]
+    el = [(r[0], (r[1], r[2], r[3])) for r in st.ts_rows()]
     return in_force(el, t, (4, 4, 4))
 
 
@@ -158,6 +238,11 @@ def measures_in_scope(st):
     tss = sorted(st.of("ts"), key=lambda o: o[1])
     first_len = ms[0][1] - ms[0][0]
     fb = full_bar(st)
+    if st.musical_mode and tss and tss[0][1] != t0:
+        # beats before the first signature are quarters, its musical beat may be longer: two readings again
+        first = min(st.ts_rows())
+        if first[3] != first[1]:
+            return False
     if t0 != 0:
         # the correction is anchored at timeline position 0: only unambiguous without a pickup
         return first_len >= fb and (not tss or tss[0][1] == t0 or tss[0][3] == 4)
@@ -165,8 +250,10 @@ def measures_in_scope(st):
         return False  # beats before the first signature are quarters: two readings of "full bar"
     if fb.denominator != 1:
         return False
-    b, bt, _ = ref_ts(st, 0)
+    b, bt, mb = ref_ts(st, 0)
     dpb = F(st.q_at(0) * 4, bt)
+    if st.musical_mode:
+        dpb = max(dpb, fb / mb)  # the first beat is a musical beat while these are in use
     if pts[-1] < dpb:
         return False
     for o in tss:
@@ -475,3 +562,146 @@ def _case_in_scope(case):
         if "meas" in case["maps"] and st.of("meas") and not measures_in_scope(st):
             return False
     return True
+
+
+# ---------------------------------------------------------------------------------------------
+# in-place changes: the elements are changed without Part.add / Part.remove, then the maps are queried again
+
+
+def inplace_bases():
+    """(name, quarter duration, ops) of the base parts of the in-place spaces."""
+    out = []
+    # two signatures (6/8 then 2/4, quarter = 2 divisions), two of each other kind, two staves
+    out.append(("two", 2, [
+        ["note", 0, 10, 1, "n0"], ["note", 6, 8, 2, "n1"], ["note", 1, 2, 1, "n2"],
+        ["ts", 0, 6, 8], ["ts", 6, 2, 4], ["meas", 0, 6, 1], ["meas", 6, 10, 2],
+        ["ks", 0, 3, "major"], ["ks", 6, -2, "minor"], ["clef", 0, 1, "G", 2, 0], ["clef", 6, 2, "F", 4, None]]))
+    # elements start after the first point
+    out.append(("gap", 1, [
+        ["note", 0, 6, 1, "n0"], ["note", 3, 4, 1, "n1"], ["note", 5, 6, 2, "n2"],
+        ["ts", 3, 3, 4], ["meas", 0, 3, 1], ["meas", 3, 6, 2],
+        ["ks", 2, 0, None], ["clef", 1, 1, "C", 3, -1], ["clef", 4, 1, "TAB", 5, 1]]))
+    # pickup measure, 3/4 then 4/4; staff 1 has no clef
+    out.append(("pickup", 1, [
+        ["note", 0, 8, 1, "n0"], ["note", 1, 2, 1, "n1"], ["note", 4, 6, 2, "n2"],
+        ["ts", 0, 3, 4], ["ts", 4, 4, 4], ["meas", 0, 1, 0], ["meas", 1, 4, 1], ["meas", 4, 8, 2],
+        ["clef", 0, 2, "percussion", 2, None]]))
+    # one signature with a compound numerator, one staff, no clef
+    out.append(("single", 1, [
+        ["note", 0, 12, 1, "n0"], ["note", 6, 7, 1, "n1"],
+        ["ts", 0, 12, 8], ["meas", 0, 6, 1], ["meas", 6, 12, 2], ["ks", 0, -7, "minor"]]))
+    # no signature at all (documented defaults)
+    out.append(("none", 1, [
+        ["note", 0, 4, 1, "n0"], ["note", 2, 3, 1, "n1"], ["meas", 0, 4, 1], ["clef", 0, 1, "F", 4, 0]]))
+    return out
+
+
+BEATS_PARTNER = {6: 2, 2: 6, 9: 3, 3: 9, 12: 4, 4: 12}  # numerators with the same documented number of musical beats
+
+
+def _alt_musical_beats(beats):
+    for v in (3, 1, 2, 5):
+        if v != beats and v != default_musical_beats(beats):
+            return v
+
+
+def inplace_steps(base):
+    """The alphabet of edit steps for a base part: dict family -> list of steps; a step is a list
+    of ops applied together before the next query."""
+    ts = [(i, o) for i, o in enumerate(base) if o[0] == "ts"]
+    names = ["%d/%d" % (o[2], o[3]) for _, o in ts] or ["4/4"]
+    beats = [o[2] for _, o in ts] or [4]
+    d_all = dict((n, _alt_musical_beats(b)) for n, b in zip(names, beats))
+    d_first = {names[0]: beats[0]}  # the notated number of beats, stated explicitly
+    d_last = {names[-1]: _alt_musical_beats(beats[-1]) + 1, "5/8": 1}
+    mode = [[["umb", {}]], [["umb", d_all]], [["umb", d_first]], [["umb", d_last]], [["unb"]],
+            [["smb", {}]], [["smb", d_all]], [["smb", d_last]]]
+    tsed = []
+    for i, o in ts:
+        tsed.append([["set", i, "beats", BEATS_PARTNER[o[2]]]])
+        tsed.append([["set", i, "beat_type", 8 if o[3] == 4 else 4]])
+        tsed.append([["set", i, "beats", 5], ["set", i, "musical_beats", 5]])
+        tsed.append([["set", i, "musical_beats", _alt_musical_beats(o[2])]])
+        tsed.append([["rm", i]])
+    used = set(o[1] for _, o in ts)
+    last = max(max(o[1], o[2]) if o[0] in ("note", "meas") else o[1] for o in base)
+    free = [t for t in range(0, last + 1) if t not in used]
+    for t in (free[0], free[len(free) // 2], free[-1]):
+        if [["ts", t, 5, 4]] not in tsed:
+            tsed.append([["ts", t, 5, 4]])
+    other = []
+    for i, o in enumerate(base):
+        if o[0] == "ks":
+            other.append([["set", i, "fifths", -o[2] - 1]])
+            other.append([["set", i, "mode", "minor" if o[3] != "minor" else None]])
+        elif o[0] == "clef":
+            other.append([["set", i, "sign", "jianpu" if o[3] != "jianpu" else "G"]])
+            other.append([["set", i, "line", o[4] % 5 + 1], ["set", i, "octave_change", None if o[5] is not None else -2]])
+            other.append([["set", i, "staff", 3 - o[2]]])
+        elif o[0] == "meas":
+            other.append([["set", i, "number", o[3] + 7]])
+    mid = free[len(free) // 2]
+    other.append([["ks", mid, 5, None]])
+    other.append([["clef", mid, 1, "none", 3, 2]])
+    return {"mode": mode, "ts": tsed, "other": other}
+
+
+def inplace_maps(q, phases, maps):
+    """Generator-side precondition of an in-place case: None if some phase leaves the statement
+    open, else the families of maps that have one reading after every phase."""
+    st = State(q)
+    maps = list(maps)
+    nst = None
+    for ph in phases:
+        for o in ph:
+            if o[0] in ("rm", "set") and o[1] not in st.live:
+                return None
+            st.apply(o)
+        if st.open or not st.musical_beats_determined():
+            return None
+        for kind in ("ts", "ks"):
+            tt = [o[1] for o in st.of(kind)]
+            if len(tt) != len(set(tt)):
+                return None
+        cc = [(o[1], o[2]) for o in st.of("clef")]
+        if len(cc) != len(set(cc)):
+            return None
+        if nst is not None and st.nstaves() != nst and all(o[0] in ("set", "umb", "unb", "smb") for o in ph):
+            # an in-place change of the number of staves: Part.number_of_staves is documented as
+            # computed once and refreshed by Part.add / Part.remove (reported, not generated)
+            return None
+        nst = st.nstaves()
+        if "meas" in maps and (not st.of("meas") or not measures_in_scope(st)):
+            maps.remove("meas")
+    return maps
+
+
+def _inplace_case(base, q, steps, maps, name):
+    phases = [base] + [list(s) for s in steps]
+    m = inplace_maps(q, phases, maps)
+    if not m:
+        return None
+    return dict(q=q, maps=m, phases=phases, inplace=name)
+
+
+def gen_inplace_single():
+    """base queried, ONE step of the whole alphabet, queried again; all four families of maps."""
+    for name, q, base in inplace_bases():
+        al = inplace_steps(base)
+        for s in al["mode"] + al["ts"] + al["other"]:
+            c = _inplace_case(base, q, [s], ["ts", "ks", "clef", "meas"], name)
+            if c:
+                yield c
+
+
+def gen_inplace_ts(depth, alphabet=("mode", "ts"), maps=("ts",), min_depth=2):
+    """base queried, then every sequence of min_depth..depth steps over the given alphabet,
+    queried after every step."""
+    for name, q, base in inplace_bases():
+        al = inplace_steps(base)
+        steps = sum((al[k] for k in alphabet), [])
+        for d in range(min_depth, depth + 1):
+            for seq in itertools.product(steps, repeat=d):
+                c = _inplace_case(base, q, seq, list(maps), name)
+                if c:
+                    yield c
